@@ -164,7 +164,6 @@ func c01(r *core.Run) {
 		"(which runtime.GetWrappedError would report as an internal UnexpectedError); every error type of the module carries exactly one marker; " +
 		"(R2) every embedding entry point of runtime that runs user code defers runtime.Recover before any other call; " +
 		"(R3) every recover() site has the reviewed arm summary (which dynamic types are absorbed, which re-panicked): none absorbs a Go runtime.Error or an InternalError except the reviewed boundaries, and new sites are violations until classified; " +
-		"(R4) module-wide error discipline: no call of a module, atree or fixed-point function has its error result dropped, overwritten before being tested, or swallowed on its non-nil edge, beyond the 121 sites recorded from the pinned tree (a baseline, not individually justified); " +
 		"(R6) no raw VM.locals / Upvalue.closed slot value is pushed on the VM operand stack without maybeUnwrapImplicitReference (an ImplicitReferenceValue there fails a Go type assertion, i.e. an internal error); " +
 		"(R7) every ExternalInterface method converts a non-nil host error with WrappedExternalError (an unwrapped host error is reported as an internal error)."
 	r.NotDecided = "type soundness (that defensive internal-error checks never fire for checker-accepted programs) and VM/interpreter parity: these need generated programs."
@@ -228,7 +227,8 @@ func c01(r *core.Run) {
 	r.Floor("R1.panic", 1500)
 	c01ErrorClasses(r, ec)
 	c01Boundary(r)
-	c01ErrorDiscipline(r)
+	// (the module-wide error-discipline baseline formerly registered here as R4 was withdrawn: a swallowed error is not an
+	// internal error, so the rule is not a necessary condition of C01; it remains, scoped to their functions, under C41–C45)
 	// R5 library error mappers are exhaustive: an unmapped fixed-point library error would be re-panicked as a raw Go error,
 	// i.e. surface as an internal UnexpectedError for a user-reachable condition
 	fixSaturation(r)
